@@ -697,7 +697,7 @@ pub fn prune(rep: &mut Report, tier: Tier) {
 
 pub fn reduce(rep: &mut Report, tier: Tier) {
     let (n, reps) = if tier == Tier::Quick { (4, 6) } else { (5, 8) };
-    rep.rule = "binary trees with terminals from a tiny pool (equal siblings at several levels, siblings differing only in bias or in one coefficient); contract: function unchanged at every lattice point (no tolerance), node count does not grow, idempotent, afterwards no decision below the root has two equal terminal children, decisions with differing terminal children are kept; non-trivial: reduce removed at least one node".into();
+    rep.rule = "binary trees with terminals from a tiny pool (equal siblings at several levels, siblings differing only in bias or in one coefficient; two-output terminals in row-major / column-major / strided memory layouts); contract: function unchanged at every lattice point (no tolerance), node count does not grow, idempotent, afterwards no decision below the root has two equal terminal children, decisions with differing terminal children are kept; non-trivial: reduce removed at least one node".into();
     rep.bound = format!("shapes with <= {n} decisions (partial allowed) x {reps} seeded assignment(s), dims in {{1,2}}");
     let sh = shapes(2, n, true);
     let mut idx = 0u64;
@@ -708,13 +708,15 @@ pub fn reduce(rep: &mut Report, tier: Tier) {
                 continue;
             }
             let mut rng = Rng::new(rep.seed ^ (idx * 86028121 + r as u64));
-            let d = 1 + rng.below(2);
-            let mut t = build::<2>(&mut rng, s, d, 1, true, true);
+            // every third case has two outputs and two inputs, so that terminal matrices can come in different memory layouts
+            let wide = r % 3 == 2;
+            let d = if wide { 2 } else { 1 + rng.below(2) };
+            let mut t = build::<2>(&mut rng, s, d, if wide { 2 } else { 1 }, true, true);
             // every second case: make all terminals below a random node equal, so that merges cascade over several levels
             if r % 2 == 1 {
                 let nodes: Vec<usize> = t.tree.node_indices().collect();
                 let top = *rng.pick(&nodes);
-                let f = term(&mut rng, d, 1, true);
+                let f = term(&mut rng, d, if wide { 2 } else { 1 }, true);
                 let leaves: Vec<usize> = t.tree.terminal_indices().collect();
                 for l in leaves {
                     let under = l == top || t.tree.path_to_node(l).unwrap().iter().any(|(p, _)| *p == top);
@@ -723,8 +725,33 @@ pub fn reduce(rep: &mut Report, tier: Tier) {
                     }
                 }
             }
+            // same logical terminals, different memory layouts (column-major matrices as produced by transposition or
+            // concatenation along axis 1, strided bias vectors): equality of terminals must not depend on the layout
+            let mut layouts = String::new();
+            if wide {
+                let leaves: Vec<usize> = t.tree.terminal_indices().collect();
+                for l in leaves {
+                    let nd = t.tree.node_value_mut(l).unwrap();
+                    let (m, b) = (nd.aff.mat.clone(), nd.aff.bias.clone());
+                    let colmajor = rng.chance(1, 2);
+                    let strided = rng.chance(1, 2);
+                    let m2 = if colmajor { m.t().to_owned().reversed_axes() } else { m };
+                    let b2 = if strided {
+                        let mut v = vec![];
+                        for x in b.iter() {
+                            v.push(*x);
+                            v.push(7.0);
+                        }
+                        ndarray::Array1::from(v).slice_move(ndarray::s![..;2])
+                    } else {
+                        b
+                    };
+                    nd.aff = AffFunc::from_mats(m2, b2);
+                    layouts.push_str(&format!(" {l}:{}{}", if colmajor { "c" } else { "r" }, if strided { "s" } else { "-" }));
+                }
+            }
             let before = x_of(&t).unwrap();
-            let descr = before.descr();
+            let descr = if wide { format!("{} | layouts (c=column-major matrix, s=strided bias):{layouts}", before.descr()) } else { before.descr() };
             rep.evaluations += 1;
             rep.sample(descr.clone());
             let res = guarded(|| {
